@@ -1,6 +1,48 @@
-//! C20 — stub (to be written; see /verif/harness/AUTHORING.md and DESIGN.md §3 C20)
-use vengine::Property;
+//! C20 — same data, parameters and seed give bit-identical results on every run.
+pub mod cluster;
+pub mod data;
+pub mod driver;
+pub mod kmeans;
+pub mod out;
+pub mod tree_bayes;
+
+use driver::{child_entry, judge, Case};
+use proptest::prelude::*;
+use vengine::{prop_sub, Property, Tier};
+
+fn wrap<E: std::fmt::Debug + Clone + 'static>(
+    tier: Tier,
+    s: impl Strategy<Value = E>,
+) -> impl Strategy<Value = Case<E>> {
+    let children = tier.pick(3u8, 6u8);
+    (s, 0u8..6).prop_map(move |(est, rep_pool)| Case { est, rep_pool, children })
+}
+
+macro_rules! subs {
+    ($( ($name:literal, $m:ident, $quick:expr, $thorough:expr, $chunks:expr) ),* $(,)?) => {
+        pub fn child_main(spec: &str) -> ! {
+            driver::child_main(spec, &[ $( ($name, child_entry::<$m::Cfg>) ),* ])
+        }
+        fn all_subs() -> Vec<Box<dyn vengine::SubCheck>> {
+            vec![ $(
+                prop_sub(
+                    $name, $quick, $thorough,
+                    |t: Tier| wrap(t, $m::strategy(t)),
+                    |c: &Case<$m::Cfg>, obs: &mut vengine::Obs| judge($name, c, obs),
+                )
+                .chunks($chunks)
+                .require(&["children_ok"]) as Box<dyn vengine::SubCheck>
+            ),* ]
+        }
+    };
+}
+
+subs![
+    ("kmeans", kmeans, 64, 640, 16),
+    ("cluster", cluster, 120, 1500, 8),
+    ("tree_bayes", tree_bayes, 240, 3000, 8),
+];
 
 pub fn property() -> Property {
-    Property { id: "C20", rule: "", assumptions: vec![], subs: vec![] }
+    Property { id: "C20", rule: "", assumptions: vec![], subs: all_subs() }
 }
